@@ -24,7 +24,7 @@ struct Arena {
 };
 
 struct ConcRun {
-    static const int NKINDS = 30;
+    static const int NKINDS = 33;
     RunEnv& env; Rep& R; int view; const Plan& plan;
     Arena sh;                       // shared inputs, sealed read-only during the task phases
     // shared objects
@@ -68,12 +68,12 @@ struct ConcRun {
 
     // Per-task scratch: everything a script may write, allocated before the concurrent phase.
     struct Scratch {
-        Buf gt1, g1, g2, g1a, g2a, key, keyb, key2, keyb2, ct, sig, pre, params, paramsh, ap, pp, lqct, lqsk, bytes; uint8_t sym[64]; Frv fr;
+        Buf gt1, g1, g2, g1a, g2a, key, keyb, key2, keyb2, ct, sig, pre, params, paramsh, ap, pp, lqct, lqsk, lqparams2, lqid2, lqmsk2, bytes; uint8_t sym[64]; Frv fr;
         Stream stream; HashStub hash;
         void init(Rep& R) {
             gt1.alloc(576); g1.alloc(144); g2.alloc(288); g1a.alloc(R.sz(JV_SZ_G1A)); key.alloc(R.sz(JV_SZ_WK_SK)); keyb.alloc(4 * R.sz(JV_SZ_WK_FREESLOT));
             ct.alloc(R.sz(JV_SZ_WK_CT)); sig.alloc(R.sz(JV_SZ_WK_SIG)); params.alloc(R.sz(JV_SZ_WK_PARAMS)); paramsh.alloc(3 * R.sz(JV_SZ_G1));
-            ap.alloc(2 * R.sz(JV_SZ_APAIR)); pp.alloc(R.sz(JV_SZ_PPAIR)); lqct.alloc(R.sz(JV_SZ_LQ_CT)); lqsk.alloc(R.sz(JV_SZ_LQ_SK));
+            ap.alloc(2 * R.sz(JV_SZ_APAIR)); pp.alloc(R.sz(JV_SZ_PPAIR)); lqct.alloc(R.sz(JV_SZ_LQ_CT)); lqsk.alloc(R.sz(JV_SZ_LQ_SK)); lqparams2.alloc(R.sz(JV_SZ_LQ_PARAMS)); lqid2.alloc(R.sz(JV_SZ_LQ_ID)); lqmsk2.alloc(R.sz(JV_SZ_LQ_MSK));
             g2a.alloc(R.sz(JV_SZ_G2A)); key2.alloc(R.sz(JV_SZ_WK_SK)); keyb2.alloc(4 * R.sz(JV_SZ_WK_FREESLOT)); pre.alloc(R.sz(JV_SZ_WK_PRE)); bytes.alloc(4096);
             stream.reqs.reserve(4096);
         }
@@ -83,7 +83,7 @@ struct ConcRun {
     std::string exec(const Op& op, Scratch& s) {
         Rep& r = R; int k = (int) op.arg(0) % NKINDS; uint64_t a = (uint64_t) op.arg(1), b = (uint64_t) op.arg(2);
         uint8_t sc[32]; { Rng rr(a * 31 + b); rr.fill(sc, 32); }
-        s.stream.reseed(mix3(a, b, 99)); s.stream.begin_call(4096); s.hash.calls.clear();
+        s.stream.reseed(mix3(a, b, 99)); s.stream.begin_call(4096); s.hash.calls.clear(); memset(s.bytes.p, 0, s.bytes.n);
         tl_stream = &s.stream; tl_hash = &s.hash;
         std::string d;
         jv_attr at[3]; set_attr(at[0], 0, 5); set_attr(at[1], 1, 7 + (a & 3)); set_attr(at[2], 2, 9);
@@ -116,8 +116,26 @@ struct ConcRun {
         case 24: { { InLib g; r.jv_gt_marshal(view, s.bytes.p, gt); r.jv_gt_unmarshal(view, s.gt1, s.bytes.p); r.jv_gt_double(view, s.gt1, s.gt1); r.jv_gt_negate(view, s.gt1, s.gt1); r.jv_gt_add(view, s.gt1, s.gt1, gt); } d = sha_hex(s.gt1.p, 576, 12); break; }
         case 25: { r.jv_wk_sk_init(s.key, s.keyb); int n, ok; { InLib g; n = r.jv_wk_set_length(view, JV_OK_WK_SK, s.key, key_bytes.data(), key_bytes.size(), 0); ok = r.jv_wk_unmarshal(view, JV_OK_WK_SK, s.key, key_bytes.data(), 0, (int) (a & 1)); } d = strf("%d:%d:", n, ok) + key_digest(s.key); break; }
         case 26: { int ok1, ok2; { InLib g; ok1 = r.jv_wk_unmarshal(view, JV_OK_WK_CT, s.ct, ct_bytes.data(), 1, 1); ok2 = r.jv_wk_unmarshal(view, JV_OK_WK_SIG, s.sig, sig_bytes.data(), 0, 1); } std::vector<uint8_t> bb = marshal_digest(JV_OK_WK_CT, s.ct), b2 = marshal_digest(JV_OK_WK_SIG, s.sig); d = strf("%d%d:", ok1, ok2) + sha_hex(bb.data(), bb.size(), 8) + sha_hex(b2.data(), b2.size(), 8); break; }
-        case 27: { { InLib g; r.jv_lq_keygen(view, s.lqsk, lqmsk, lqid); r.jv_lq_marshal(view, JV_OK_LQ_SK, s.bytes.p, s.lqsk, 1); } d = sha_hex(s.bytes.p, 48, 12); break; }
+        case 27: { int ok1, ok2, ok3;
+                   { InLib g; r.jv_lq_keygen(view, s.lqsk, lqmsk, lqid); r.jv_lq_marshal(view, JV_OK_LQ_SK, s.bytes.p, s.lqsk, 1);
+                     r.jv_lq_marshal(view, JV_OK_LQ_PARAMS, s.bytes.p + 64, lqparams, (int) (a & 1)); r.jv_lq_marshal(view, JV_OK_LQ_ID, s.bytes.p + 512, lqid, (int) (b & 1)); r.jv_lq_marshal(view, JV_OK_LQ_CT, s.bytes.p + 640, lqct, 1); r.jv_lq_marshal(view, JV_OK_LQ_MSK, s.bytes.p + 800, lqmsk, 0);
+                     ok1 = r.jv_lq_unmarshal(view, JV_OK_LQ_PARAMS, s.lqparams2, s.bytes.p + 64, (int) (a & 1), 1); ok2 = r.jv_lq_unmarshal(view, JV_OK_LQ_CT, s.lqct, s.bytes.p + 640, 1, 1); ok3 = r.jv_lq_unmarshal(view, JV_OK_LQ_SK, s.lqsk, s.bytes.p, 1, 1); }
+                   d = strf("%d%d%d:", ok1, ok2, ok3) + sha_hex(s.bytes.p, 900, 12); break; }
         case 28: { uint8_t h[32]; Rng rr(a); rr.fill(h, 32); Frv z; { InLib g; r.jv_zp_random(view, s.fr.b, jv_rand_cb); r.jv_zp_from_hash(view, z.b, h); r.jv_wk_random_gt(view, s.gt1, jv_rand_cb); } d = hex(s.fr.b, 8) + hex(z.b, 8) + sha_hex(s.gt1.p, 576, 8); break; }
+        case 30: { int f = 0; G1v x, y; G2v u, v2; GTv t2;
+                   { InLib g; r.jv_g1_from_affine(view, x.b, g1p[a % 3]); r.jv_g1_add_mixed(view, y.b, x.b, g1p[b % 3]); r.jv_g1_add(view, x.b, x.b, y.b); r.jv_g1_double(view, x.b, x.b); r.jv_g1_negate(view, y.b, x.b); f += r.jv_g1_equal(view, x.b, y.b);
+                     r.jv_g1affine_from_projective(view, s.g1a, x.b); r.jv_g1affine_negate(view, s.g1a, s.g1a); f += 2 * r.jv_g1affine_equal(view, s.g1a, g1p[0]);
+                     r.jv_g2_from_affine(view, u.b, g2p[a % 3]); r.jv_g2_add_mixed(view, v2.b, u.b, g2p[b % 3]); r.jv_g2_add(view, u.b, u.b, v2.b); r.jv_g2_double(view, u.b, u.b); r.jv_g2_negate(view, v2.b, u.b); f += 4 * r.jv_g2_equal(view, u.b, v2.b);
+                     r.jv_g2affine_from_projective(view, s.g2a, u.b); r.jv_g2affine_negate(view, s.g2a, s.g2a); f += 8 * r.jv_g2affine_equal(view, s.g2a, g2p[0]); f += 16 * r.jv_g2prepared_is_zero(view, prep);
+                     r.jv_g1_multiply(view, x.b, x.b, sc); r.jv_g2_multiply(view, u.b, u.b, sc); r.jv_gt_add(view, t2.b, gt, gt); f += 32 * r.jv_gt_equal(view, t2.b, gt); }
+                   uint8_t c1[97], c2[193]; r.jv_g1_canon(c1, x.b); r.jv_g2_canon(c2, u.b); d = strf("%d:", f) + sha_hex(c1, 97, 8) + sha_hex(c2, 193, 8); break; }
+        case 31: { r.jv_wk_params_init(s.params, s.paramsh, 1); { InLib g; r.jv_wk_setup(view, s.params, s.key2 /* msk fits */, 1, (int) (a & 1), jv_rand_cb); } std::vector<uint8_t> bb = marshal_digest(JV_OK_WK_PARAMS, s.params); d = sha_hex(bb.data(), bb.size(), 12); break; }
+        case 32: { Frv z; memcpy(z.b, sc, 32); int ok; size_t n1, n2, n3; int ul; uint8_t h48[48]; { Rng rr(a ^ 0x48); rr.fill(h48, 48); }
+                   { InLib g; r.jv_wk_scalar_hash_reduce(view, z.b); r.jv_wk_random_zpstar(view, s.fr.b, jv_rand_cb); r.jv_wk_random_g1(view, s.g1, jv_rand_cb);
+                     r.jv_wk_marshal(view, JV_OK_WK_MSK, s.bytes.p, wmsk, (int) (a & 1)); ok = r.jv_wk_unmarshal(view, JV_OK_WK_MSK, s.key2, s.bytes.p, (int) (a & 1), 1);
+                     n1 = r.jv_wk_get_marshalled_length(view, JV_OK_WK_PARAMS, wparams, 0); n2 = r.jv_wk_marshalled_length(view, JV_OK_WK_SK, 3, 1, 1); n3 = r.jv_lq_get_marshalled_length(view, JV_OK_LQ_PARAMS, 1); ul = r.jv_wk_unmarshalled_length(view, JV_OK_WK_SK, key_bytes.data(), key_bytes.size(), 0);
+                     r.jv_lq_compute_id_from_hash(view, s.lqid2, h48); r.jv_lq_setup(view, s.lqparams2, s.lqmsk2, jv_rand_cb); }
+                   uint8_t c1[97]; r.jv_g1_canon(c1, s.g1); d = strf("%d:%zu:%zu:%zu:%d:", ok, n1, n2, n3, ul) + hex(z.b, 8) + hex(s.fr.b, 8) + sha_hex(c1, 97, 8) + sha_hex(s.lqparams2.p, 576, 8) + sha_hex(s.bytes.p, 96, 6); break; }
         case 29: { { InLib g; r.jv_g2_random(view, s.g2, jv_rand_cb); } uint8_t c[193]; r.jv_g2_canon(c, s.g2); d = sha_hex(c, 193, 12); break; }
         }
         tl_stream = nullptr; tl_hash = nullptr;
@@ -140,7 +158,7 @@ struct ConcRun {
         for (auto& op : plan.ops) if (op.kind == "T") scripts[(size_t) op.arg(3) % ntasks].push_back(op);
         // ---- M-solo: every script alone, one after another
         std::vector<TaskOut> solo(ntasks), conc(ntasks);
-        { std::vector<Scratch> sc(ntasks); for (size_t t = 0; t < ntasks; t++) { sc[t].init(R); for (auto& op : scripts[t]) { solo[t].digests.push_back(exec(op, sc[t])); env.lib_calls++; } } }
+        { std::vector<Scratch> sc(ntasks); for (size_t t = 0; t < ntasks; t++) { sc[t].init(R); for (auto& op : scripts[t]) { uint64_t h0 = tl_hook_calls; solo[t].digests.push_back(exec(op, sc[t])); env.lib_calls++; env.logf("SOLO t%zu k%lld fieldmults=%llu", t, (long long) op.arg(0) % NKINDS, (unsigned long long) (tl_hook_calls - h0)); } } }
         // ---- the same scripts as concurrent tasks under the seeded scheduler
         Scheduler sched; sched.p_switch_log2 = (uint32_t) plan.c("pswitch", 6);
         std::vector<Scratch> sc(ntasks); for (auto& s : sc) s.init(R);
@@ -158,7 +176,7 @@ struct ConcRun {
         }
         std::string kinds; for (size_t t = 0; t < ntasks; t++) { for (auto& op : scripts[t]) kinds += strf("%lld,", (long long) op.arg(0) % NKINDS); kinds += "|"; }
         env.add_case(strf("conc %s ps%lld sw%llu", kinds.c_str(), (long long) plan.c("pswitch", 6), (unsigned long long) std::min<uint64_t>(sched.switches, 50)), sched.switches > 0);
-        env.logf("CONC tasks=%zu switches=%llu yields=%llu", ntasks, (unsigned long long) sched.switches, (unsigned long long) sched.global_yield);
+        { std::string ty; for (auto t : sched.tasks) ty += std::to_string(t->yields) + ","; env.logf("CONC tasks=%zu switches=%llu yields=%llu per-task=%s", ntasks, (unsigned long long) sched.switches, (unsigned long long) sched.global_yield, ty.c_str()); }
     }
 };
 
